@@ -24,7 +24,8 @@ UTIL_FNS = ["linear_cg", "minres", "lanczos_tridiag", "psd_safe_cholesky", "stab
             "toeplitz_matmul", "sym_toeplitz_matmul", "toeplitz_getitem", "sym_toeplitz_dqf", "left_interp", "left_t_interp", "make_sparse",
             "bdsmm", "sparse_getitem", "sparse_repeat", "to_sparse", "apply_permutation", "inverse_permutation", "ciq", "dsmm",
             "f_solve", "f_inv_quad", "f_inv_quad_logdet", "f_root_decomposition", "f_root_inv_decomposition", "f_pivoted_cholesky",
-            "f_add_diagonal", "f_add_jitter", "f_diagonalization", "f_sqrt_inv_matmul", "detach_", "requires_grad_", "torch_fn"]
+            "f_add_diagonal", "f_add_jitter", "f_diagonalization", "f_sqrt_inv_matmul", "detach_", "requires_grad_", "torch_fn", "getitem_index_tensors",
+            "op_method"]
 
 
 # ----------------------------------------------------------------------------------------------------
@@ -204,6 +205,32 @@ def gen_util(g, w):
         if o is None:
             return None
         a = {"op": o, "val": rng.random() < 0.5}
+    elif fn == "getitem_index_tensors":
+        o = world_op(False)
+        if o is None:
+            return None
+        r = w.objs[o]
+        nn, bb = r.D.shape[-1], list(r.D.shape[:-2])
+        mm = r.D.shape[-2]
+        k = rng.choice([1, 2, 3])
+        rows = torch.tensor([rng.randrange(mm) for _ in range(k)])
+        cols = torch.tensor([rng.randrange(nn) for _ in range(k)])
+        a = {"op": o, "rows": T(rows, "row index tensor", dtype="int64"), "cols": T(cols, "column index tensor", dtype="int64"),
+             "how": rng.choice(["elements", "rows_slice", "cols_slice"])}
+    elif fn == "op_method":
+        o = world_op(False)
+        if o is None:
+            return None
+        r = w.objs[o]
+        nn, bb = r.D.shape[-1], list(r.D.shape[:-2])
+        a = {"op": o, "which": rng.choice(["rmatmul", "sub", "sum_rows", "sum_cols", "to_dense_fn", "double", "float", "numpy", "t_matmul", "size", "repr",
+                                             "representation", "squeeze", "abs_sqrt_exp_log", "inverse", "isclose", "permute_batch"])}
+        if a["which"] in ("rmatmul",):
+            a["lhs"] = T(g.randn(*(bb + [2, r.D.shape[-2]])), "lhs")
+        if a["which"] in ("t_matmul",):
+            a["rhs"] = T(g.randn(*(bb + [r.D.shape[-2], 2])), "rhs")
+        if a["which"] in ("sub", "isclose"):
+            a["other"] = T(g.randn(*list(r.D.shape)), "dense matrix")
     elif fn == "torch_fn":
         o = world_op()
         if o is None:
@@ -358,6 +385,61 @@ def _run(w, fn, a, get):
         return [get(a["op"]).detach_()]
     if fn == "requires_grad_":
         return [get(a["op"]).requires_grad_(a["val"])]
+    if fn == "getitem_index_tensors":
+        op = get(a["op"])
+        rows, cols = get(a["rows"]), get(a["cols"])
+        if a["how"] == "elements":
+            return [op[..., rows, cols]]
+        if a["how"] == "rows_slice":
+            res = op[..., rows, :]
+        else:
+            res = op[..., :, cols]
+        return [res.to_dense() if isinstance(res, LinearOperator) else res]
+    if fn == "op_method":
+        op = get(a["op"])
+        wh = a["which"]
+        if wh == "rmatmul":
+            return [op.rmatmul(get(a["lhs"]))]
+        if wh == "t_matmul":
+            return [op._t_matmul(get(a["rhs"]))]
+        if wh == "sub":
+            res = op - get(a["other"])
+            return [res.to_dense() if isinstance(res, LinearOperator) else res]
+        if wh == "isclose":
+            return [op.isclose(get(a["other"]))]
+        if wh == "sum_rows":
+            res = op.sum(-2)
+            return [res.to_dense() if isinstance(res, LinearOperator) else res]
+        if wh == "sum_cols":
+            res = op.sum(-1)
+            return [res.to_dense() if isinstance(res, LinearOperator) else res]
+        if wh == "to_dense_fn":
+            return [linear_operator.to_dense(op)]
+        if wh == "double":
+            return [op.double().to_dense()]
+        if wh == "float":
+            return [op.float().to_dense()]
+        if wh == "numpy":
+            return [torch.as_tensor(op.numpy())]
+        if wh == "size":
+            return [torch.tensor(list(op.size()))]
+        if wh == "repr":
+            repr(op)
+            return []
+        if wh == "representation":
+            return [t_ for t_ in op.representation() if torch.is_tensor(t_)][:3]
+        if wh == "squeeze":
+            res = op.unsqueeze(0).squeeze(0)
+            return [res.to_dense()]
+        if wh == "abs_sqrt_exp_log":
+            return [op.abs().to_dense(), op.sqrt().to_dense(), op.exp().to_dense(), op.log().to_dense()]
+        if wh == "inverse":
+            return [op.inverse().to_dense()]
+        if wh == "permute_batch":
+            if op.dim() < 3:
+                return []
+            dims = list(range(op.dim() - 2))[::-1] + [op.dim() - 2, op.dim() - 1]
+            return [op.permute(*dims).to_dense()]
     if fn == "torch_fn":
         op = get(a["op"])
         wh = a["which"]
